@@ -50,6 +50,7 @@ mod imp {
             "walk" => walk(&a, &mut d),
             "exh" => exh(&a, &mut d, t0),
             "single" => single(&a, &mut d),
+            "bigoff" => bigoff(&a, &mut d),
             m => {
                 eprintln!("unknown mode {m}");
                 std::process::exit(2);
@@ -121,6 +122,55 @@ mod imp {
         }
     }
 
+    /// 32-bit only path: an inline-Vec BytesMut whose front offset no longer fits the pointer-tag bits
+    /// (> usize::MAX >> 5) is promoted to the shared form inside `advance`. Reachable on a 32-bit target
+    /// with a ~135 MB buffer (run under Miri `--target i686-unknown-linux-gnu`); on 64-bit targets the
+    /// same history simply stays in the inline form.
+    fn bigoff(a: &Args, d: &mut Driver) {
+        use bytes::{Buf, BufMut, BytesMut};
+        use vharness::seq::pool::{Origin, Val};
+        let limit = (usize::MAX >> 5) as u64;
+        let n = a.u64("size", (limit.min(1 << 27) + 4096).min(200_000_000)) as usize;
+        let case = format!("bigoff:{n}");
+        vharness::out::journal(&case);
+        let mut ch = RandCh(Rng::new(a.u64("seed", 1)));
+        d.begin(case);
+        let mut m = BytesMut::zeroed(n);
+        let tail = 64usize;
+        // a recognisable tail
+        for (i, b) in m[n - tail..].iter_mut().enumerate() {
+            *b = i as u8 ^ 0x5a;
+        }
+        let want: Vec<u8> = (0..tail).map(|i| i as u8 ^ 0x5a).collect();
+        let before = m.__verif_repr();
+        m.advance(n - tail);
+        let after = m.__verif_repr();
+        d.cell(format!("bigoff|{:?}->{:?}|ptr{}", before.kind, after.kind, usize::BITS));
+        d.count("bigoff_runs");
+        if after.kind != before.kind {
+            d.count("bigoff_promoted_in_advance");
+        }
+        d.log(format!("BytesMut::zeroed({n}); advance({}) : {:?} -> {:?}", n - tail, before.kind, after.kind));
+        d.add(Val::M(m), want, Origin::Heap);
+        d.check_all();
+        // continue with ordinary short histories on that handle
+        let mut k = 0;
+        while k < a.usize("ops", 12) && !d.failed {
+            ops::step(d, &mut ch, false);
+            k += 1;
+        }
+        // and a second, independent handle with a put after the promotion
+        let mut m2 = BytesMut::zeroed(n);
+        m2.advance(n - 8);
+        m2.put_slice(b"abcdefgh12345678");
+        let model: Vec<u8> = [vec![0u8; 8], b"abcdefgh12345678".to_vec()].concat();
+        d.add(Val::M(m2), model, Origin::Heap);
+        d.check_all();
+        d.sample_trace();
+        d.finish(&mut ch, false);
+        d.obs.inc("histories");
+    }
+
     /// One abort-class request in its own process: a capacity that is representable but cannot be
     /// allocated. Accepted outcomes: a panic (printed) or the allocator's failure abort (SIGABRT,
     /// judged by the orchestrator). If the call returns, the usual monitors decide.
@@ -139,8 +189,8 @@ mod imp {
         let i = (0..d.pool.len()).find(|&k| matches!(d.pool[k].val, Val::M(_))).expect("start state without BytesMut");
         let (len, cap) = (d.pool[i].len(), d.pool[i].cap());
         let n = match cls {
-            0 => 1usize << 41,
-            1 => 1usize << 46,
+            0 => (1u64 << 41).min(usize::MAX as u64 / 4) as usize,
+            1 => (1u64 << 46).min(usize::MAX as u64 / 3) as usize,
             2 => isize::MAX as usize / 2,
             3 => isize::MAX as usize - len - 1,
             4 => isize::MAX as usize - len,
